@@ -323,3 +323,54 @@ def fuzz_cases(ctx, kinds, seconds=None):
     log(f'coverage-guided search: {seconds}s, {len(files)} corpus/crash inputs ({ncrash} crashes) -> {len(cases)} cases for kinds {sorted(kinds)}')
     ctx.fuzz_info = {'seconds': seconds, 'inputs': len(files), 'crash_inputs': ncrash, 'cases': len(cases)}
     return cases
+
+
+# ---- structured random strings: several dimensions at once (each single dimension has its own exhaustive generator above)
+SEGMENT_POOL = {
+    'filler_ascii': [0x61, 0x62, 0x7A, 0x2D, 0x2E, 0x31],
+    'filler_2': [0xE9, 0xF1, 0x3B1, 0x431], 'filler_3': [0x65E5, 0x4E16, 0x30AB, 0x905], 'filler_4': [0x20000, 0x10400, 0x1F600],
+    'cased': [0x41, 0x5A, 0xC9, 0x130, 0x3A3, 0x1E9E, 0x212A, 0x212B, 0x23A, 0x23E, 0x2C62, 0x1F88, 0x1C5, 0x10400, 0x13A0, 0x391],
+    'wide': [0xFF21, 0xFF41, 0xFF76, 0xFF9E, 0xFF9F, 0x3000, 0xFFE6, 0xFF11],
+    'space': [0x20, 0x20, 0xA0, 0x2003, 0x3000, 0x1680, 0x205F],
+    'marks': MARKS,
+    'rtl': [0x5D0, 0x5D1, 0x627, 0x628, 0x661, 0x6F1, 0x5B0, 0x670, 0x10C00, 0x200F],
+    'ltrish': [0x31, 0x2D, 0x2C, 0x25, 0x21, 0xAD],
+    'ctx': [0x200C, 0x200D, 0xB7, 0x375, 0x5F3, 0x5F4, 0x30FB, 0x660, 0x6F0],
+    'ctx_partner': [0x94D, 0x6C, 0x3B1, 0x5D0, 0x3042, 0x30A2, 0x4E00, 0x628, 0x626, 0x64E, 0x5BF, 0xAD, 0x2E80],
+    'compat': [0xB5, 0x2460, 0xFB01, 0xA8, 0xFDFA, 0x2163, 0x3131, 0x314B, 0x13F, 0x140, 0x387, 0xFF65, 0x2017],
+    'hangul': [0x1100, 0x1161, 0x11A8, 0xAC00, 0xAC01],
+    'bad': [0x0, 0x9, 0xA, 0x7F, 0x85, 0x2028, 0x378, 0xE000, 0xFFFD, 0x34F],
+}
+
+
+def structured_strings(ctx, count, kinds=None, maxseg=7):
+    """random strings assembled from SEGMENTS (a run of one filler class of heavy-tailed length, a base with a cluster of
+    1-5 marks, a contextual character between partners, a run of spaces, a run of cased / wide / RTL / compatibility
+    characters), so that several dimensions vary together: non-adjacent relations, counts, total lengths, characters that
+    only meet after an earlier pipeline step rewrote the string"""
+    rng = ctx.rng
+    kinds = kinds or list(SEGMENT_POOL)
+    out = []
+    for _ in range(count):
+        s = []
+        for _ in range(rng.randrange(1, maxseg + 1)):
+            k = rng.choice(kinds)
+            pool = SEGMENT_POOL[k]
+            r = rng.random()
+            if k.startswith('filler'):
+                n = rng.choice([0, 1, 2, 3, 5, 7, 8, 9, 15, 16, 17, 31, 32, 33]) if r < 0.9 else rng.randrange(34, 90)
+                c = rng.choice(pool)
+                s += [c] * n if rng.random() < 0.5 else [rng.choice(pool) for _ in range(n)]
+            elif k == 'marks':
+                s += [rng.choice(SEGMENT_POOL['filler_ascii'] + SEGMENT_POOL['cased'] + SEGMENT_POOL['filler_2'])]
+                s += [rng.choice(pool) for _ in range(rng.choice([1, 1, 2, 2, 3, 3, 4, 5, 31]))]
+            elif k == 'ctx':
+                s += [rng.choice(SEGMENT_POOL['ctx_partner']) for _ in range(rng.randrange(0, 3))]
+                s += [rng.choice(pool)]
+                s += [rng.choice(SEGMENT_POOL['ctx_partner']) for _ in range(rng.randrange(0, 3))]
+            elif k == 'space':
+                s += [rng.choice(pool) for _ in range(rng.choice([1, 1, 2, 3]))]
+            else:
+                s += [rng.choice(pool) for _ in range(rng.choice([1, 1, 2, 3, 4]))]
+        out.append(s)
+    return out
